@@ -206,6 +206,11 @@ fn corpus_programs(tier: &str, with_comments: bool) -> (Vec<(String, String)>, V
     for p in sqs {
         progs.push(("SQLIVE".into(), p));
     }
+    let dses = corpus::gen_dse();
+    let dse_count = dses.len();
+    for p in dses {
+        progs.push(("DSE".into(), p));
+    }
     let rots = corpus::gen_rot(sd, if thorough { 300 } else { 40 });
     let rot_count = rots.len();
     for p in rots {
@@ -253,6 +258,7 @@ fn corpus_programs(tier: &str, with_comments: bool) -> (Vec<(String, String)>, V
         "LIVE": format!("{} programs keeping 3..14 values alive across I/O and far moves (seed {})", live_count, sd),
         "NEST": format!("{} loops whose body holds a pointer-moving inner loop followed by loops / I/O at the shifted offsets (seed {})", nest_count, sd),
         "SQLIVE": format!("{} products (x*x or x*b) computed between two uses of other live values (seed {})", sq_count, sd),
+        "DSE": format!("{} programs: store, barrier (moving scans, moves, loops), second store at the same relative offset, dump of the neighbourhood; constant and input-dependent stores (deterministic)", dse_count),
         "ROT": format!("{} k-cell rotations with arithmetic inside an input-controlled loop, k up to 16 (stack temporaries in the JIT; seed {})", rot_count, sd),
         "STRUCT": format!("{} structured programs (assignments, preserving/destructive multiply-adds, counted loops, ifs over 4 variables; seed {})", struct_count, sd),
         "REPO": format!("{} programs extracted from src/exec/testdef.rs and examples/", repo_count),
